@@ -935,17 +935,21 @@ func (c *Conn) prepareRawPacket(pkt *dtlsflight.Packet) ([][]byte, error) {
 }
 
 func (c *Conn) cacheHandshakePacket(pkt *dtlsflight.Packet, dtlsHandshake *handshake.Handshake) error {
-	handshakeRaw, err := pkt.Record.Marshal()
+	// Only the message goes into the transcript cache, and it is marshalled on
+	// its own: as one record it would have to fit a record's 16-bit length,
+	// which a message that is cut into fragments afterwards need not.
+	handshakeRaw, err := dtlsHandshake.Marshal()
 	if err != nil {
 		return err
 	}
+	pkt.Record.Header.ContentType = dtlsHandshake.ContentType()
 
 	c.log.Tracef("[handshake:%v] -> %s (epoch: %d, seq: %d)",
 		srvCliStr(dtlsstate.CommonState(c.state).IsClient), dtlsHandshake.Header.Type.String(),
 		pkt.Record.Header.Epoch, dtlsHandshake.Header.MessageSequence)
 
 	c.handshakeCache.Push(
-		handshakeRaw[recordlayer.FixedHeaderSize:],
+		handshakeRaw,
 		pkt.Record.Header.Epoch,
 		dtlsHandshake.Header.MessageSequence,
 		dtlsHandshake.Header.Type,
